@@ -3,8 +3,21 @@
 // directory; three generator families (gen.go).
 package main
 
-import "polyverif/internal/hx"
+import (
+	"os"
+	"runtime/pprof"
+
+	"polyverif/internal/hx"
+)
 
 var families = map[string]func() hx.Family{}
 
-func main() { hx.Main(families) }
+func main() {
+	if p := os.Getenv("HLEDGER_CPUPROFILE"); p != "" {
+		if f, err := os.Create(p); err == nil {
+			pprof.StartCPUProfile(f)
+			defer pprof.StopCPUProfile()
+		}
+	}
+	hx.Main(families)
+}
